@@ -58,6 +58,7 @@ type Location struct {
 	vcache    map[string]*CRLSpec
 	pcache    map[string]*x509.Certificate
 	SlowFirst time.Duration // delay of the first good delivery only
+	FailFirst int           // the first FailFirst requests (counted by Fetches) are refused, whatever State says
 }
 
 // ProbeCert returns a real, parsed certificate (no CDP, no AIA) of the location's issuer with the
@@ -287,6 +288,10 @@ func (l *Location) serve(hit *NetHit) Delivery {
 	l.Fetches++
 	d := Delivery{Kind: dReply, Status: 200, CutAt: -1, Chunk: l.Chunk}
 	html := []byte("<html><body><h1>Service unavailable</h1></body></html>\n")
+	if l.FailFirst > 0 && l.Fetches <= l.FailFirst {
+		d.Kind, d.Note = dRefuse, "refused (first requests fail)"
+		return d
+	}
 	switch l.State {
 	case oGood:
 		v := l.Doc()
